@@ -60,6 +60,7 @@ let bytes_mode () =
             | Some e -> report id nlink_one check x (gzip_process e x))
          | "ar" -> report id nlink_one check x (ar_process epoch x)
          | "pyc-zero-mtime" -> report id nlink_one check x (pyc_zero_mtime x)
+         | "javadoc" -> report id nlink_one check x (javadoc_process epoch x)
          | _ -> Printf.printf "%s NoModel -\n" id)
       | _ -> ()
     done
@@ -87,6 +88,7 @@ let handler_fun name epoch =
   | "gzip" -> (match gzip_init epoch with Some e -> Some ((fun x -> gzip_process e x), (fun _ -> false)) | None -> None)
   | "ar" -> Some ((fun x -> ar_process epoch x), ar_opens_output)
   | "pyc-zero-mtime" -> Some ((fun x -> pyc_zero_mtime x), (fun _ -> false))
+  | "javadoc" -> Some ((fun x -> javadoc_process epoch x), (fun _ -> true))
   | _ -> None
 
 let ext_of_handler = function
